@@ -54,6 +54,30 @@ pub fn scenario_ex(ctx: &mut Ctx, r: &mut Rng, focus: Focus, monitor: fn(&mut Ct
         (Ok(_), Ok(_)) => ctx.bucket("outcome.built"),
     }
     ctx.bucket(&format!("balance.{}.{}", balance_name(&o.balance), if o.balance_result.is_ok() { "ok" } else { "err" }));
+    // balancing reported success and set a fee of its own choice, and the library's own strict build then finds
+    // that fee below its minimum: the fee the builder set is insufficient (build(), which does not check,
+    // hands the same body out). A fee the caller fixed is the caller's; the build failing is the stated outcome.
+    if let (Ok(_), Err(e)) = (&o.balance_result, &o.build_result) {
+        if e.contains("Fee is less than the minimum fee") {
+            ctx.bucket("outcome.build-err.fee-below-own-minimum");
+            // (a script data hash first computed after balancing adds a body entry the fee was not computed
+            // with: the documented order of calls is the other way round, and the build failing is what the
+            // caller is told)
+            let bal = o.log.iter().position(|l| l.starts_with("balance ")).unwrap_or(0);
+            let hash_after = o.log[bal..].iter().any(|l| l.starts_with("calc_script_data_hash"));
+            if hash_after {
+                ctx.bucket("outcome.build-err.fee-below-own-minimum.hash-after-balancing");
+            } else if ctx.prop == "C06" && !o.fee_fixed_at_balancing {
+                let nums: Vec<u64> = e.split(|c: char| !c.is_ascii_digit()).filter(|t| !t.is_empty()).filter_map(|t| t.parse().ok()).collect();
+                let short = if nums.len() >= 2 { nums[0].saturating_sub(nums[1]) } else { 0 };
+                let bytes = if o.params.fee_a > 0 { short / o.params.fee_a } else { 0 };
+                ctx.violation(
+                    &format!("fee/build_tx-refuses-the-fee-balancing-set/{}", balance_name(&o.balance)),
+                    json!({"history": o.log, "error": e, "fee_mode": format!("{:?}", o.fee_mode), "short_by_bytes": bytes, "fee_a": o.params.fee_a, "coins_per_byte": o.params.coins_per_byte}),
+                );
+            }
+        }
+    }
     if o.tuned {
         ctx.bucket(&format!("tuned.applied.{}", match (&o.balance_result, &o.build_result) { (Err(_), _) => "balance-err", (Ok(_), Err(_)) => "build-err", _ => "built" }));
     }
